@@ -199,3 +199,26 @@ def outbound_of(cm, s):
     if is_app(v, "cat") and isinstance(v.args[0], Const) and len(v.args) == 2:
         return v.args[0], v.args[1]
     return None, None
+
+
+def canon_reencode(t):
+    """E = bytes_to_element(b)  =>  E.to_bytes() == b: decoding accepts only the canonical
+    encoding of exact width (C05 D1/D2), so re-encoding the decoded element gives the raw bytes."""
+    from .terms import mk_app, TupleV
+    memo = {}
+
+    def go(x):
+        k = x._key
+        if k in memo:
+            return memo[k]
+        if isinstance(x, App):
+            r = mk_app(x.f, [go(a) for a in x.args], [(kk, go(v)) for kk, v in x.kw])
+            if r.f == ".to_bytes" and len(r.args) == 1 and is_app(r.args[0], ".bytes_to_element") and len(r.args[0].args) == 2:
+                r = r.args[0].args[1]
+        elif isinstance(x, TupleV):
+            r = TupleV([go(a) for a in x.items], x.kind)
+        else:
+            r = x
+        memo[k] = r
+        return r
+    return go(t)
